@@ -263,7 +263,7 @@ def run(ctx):
     import mgr_common as mc
     ncases = []
     for i in range(ctx.pick(120, 2500)):
-        c = mc.gen_history(ctx.rng, ["assign", "mixed", "dag"][i % 3], nofun=True)
+        c = mc.gen_history(ctx.rng, ["assign", "mixed", "dag"][i % 3], nofun=True, attrdict=(i % 2 == 0))
         lv = mc.leaves_of(c)
         c["ops"].append(["picklecheck", [[ctx.rng.choice(lv), ctx.rng.randint(-9, 9)] for _ in range(4)]])
         ncases.append(c)
